@@ -297,7 +297,14 @@ func (pp *PathComponentPagePattern) hasSamePathComponentsAs(parsedURL *nurl.URL)
 			continue
 		}
 
-		if !stringutil.EqualsIgnoreCase(urlComponents[i], patternComponents[j]) {
+		// The html extension was trimmed from the end of doc URL, so
+		// it has to be trimmed from the end of the pattern as well.
+		patternComponent := patternComponents[j]
+		if j == len(patternComponents)-1 {
+			patternComponent = rxEndOrHasSHTML.ReplaceAllString(patternComponent, "")
+		}
+
+		if !stringutil.EqualsIgnoreCase(urlComponents[i], patternComponent) {
 			return false
 		}
 	}
